@@ -25,6 +25,10 @@ const ASM_BODIES: &[&str] = &[
     "LEA  RAX,[RIP+Foo]\r\n   CALL   @Bar\r\n     RET",
     "mov eax,1 // x\n    // y\n  MOV ebx,2 { z }\n  // last",
     "@@1:  // first\n\n  // own line\n  ret",
+    // toggle comments inside instruction lines: the whole body is verbatim whatever they say
+    "{pasfmt off} mov eax,1\n  mov   eax,  {pasfmt on}   [ebx+4]\n  {PASFMT ON} mov   ecx,edx",
+    "mov   eax,  (* pasfmt off *)  [ebx+4]\n    add eax ,1 // pasfmt on\n  sub   eax,2",
+    "// pasfmt off\n  mov   eax,  { pasfmt on }   [ebx+4]   ;   inc   eax\n  ret",
 ];
 
 struct Region {
@@ -143,7 +147,7 @@ impl Prop for C07 {
             if mode < 2 {
                 // ---- asm bodies
                 let body = *rng.pick(ASM_BODIES);
-                let pre = *rng.pick(&["procedure P;\nbegin\n  X:=1;\n  asm", "procedure P; assembler;\nasm", "begin\n  if A then\n  asm"]);
+                let pre = *rng.pick(&["procedure P;\nbegin\n  X:=1;\n  asm", "procedure P; assembler;\nasm", "begin\n  if A then\n  asm", "procedure P;\nbegin\n  X:=1; {pasfmt off}\n  asm"]);
                 let gap = *rng.pick(&["\n    ", " ", "\n\n  \t", "   "]);
                 let gap2 = *rng.pick(&["\n  ", " ", "\n\n\n"]);
                 let post = if pre.starts_with("procedure P; assembler") { "end;\n" } else if pre.starts_with("begin\n  if") { "end;\nend;\n" } else { "end;\n  Y   :=  2;\nend;\n" };
